@@ -18,6 +18,7 @@ def _validate(chk, scen, results, label):
     """trace validation through `drv afifo` + differential comparison of the model's delivered
     values / outcome with the real run"""
     lines = []
+    results = [(case, res) for case, res in results if case.get('fx') is None]   # raising `func`: monitors only
     for k, (case, res) in enumerate(results):
         lines += scen.model_lines(k, case, res)
     out = core.run_driver('afifo', lines)
